@@ -13,6 +13,7 @@ package main
 
 import (
 	"bufio"
+	"encoding/binary"
 	"encoding/json"
 	"flag"
 	"fmt"
@@ -256,6 +257,7 @@ func doReplay(args []string) {
 	tlclog := fs.String("tlclog", "", "file receiving the non-data lines of TLC's output")
 	procs := fs.Int("procs", 1, "for families that touch package-level options (serial): number of child processes the lines are spread over")
 	child := fs.Bool("child", false, "internal: child process of -procs (reads raw lines on stdin)")
+	cur := fs.String("cur", "", "prefix of the files that hold the line each worker is replaying (read by the caller when the process dies of a fatal runtime error)")
 	if len(args) < 1 {
 		fmt.Fprintln(os.Stderr, "usage: mxjconf replay <family> ...")
 		os.Exit(2)
@@ -290,8 +292,11 @@ func doReplay(args []string) {
 		n = 1
 	}
 	_ = child
+	if *cur == "" && *out != "" {
+		*cur = *out + ".cur"
+	}
 	if f.serial && *procs > 1 && !*child {
-		replayMultiProc(name, *procs, *out, logw)
+		replayMultiProc(name, *procs, *out, *cur, logw)
 		return
 	}
 	ch := make(chan []byte, 256)
@@ -302,8 +307,17 @@ func doReplay(args []string) {
 		wg.Add(1)
 		wa := newAcc(name)
 		was[i] = wa
+		var cf *os.File
+		if *cur != "" {
+			cf, _ = os.Create(fmt.Sprintf("%s.w%d", *cur, i))
+		}
 		go func() {
 			defer wg.Done()
+			if cf != nil {
+				// (removed when the worker ends in an orderly way: what is left behind marks a process that died)
+				defer func() { cf.Close(); os.Remove(cf.Name()) }()
+			}
+			var hdr [8]byte
 			for raw := range ch {
 				// raw is a TLA+ string literal that is also a JSON string
 				var s string
@@ -314,6 +328,11 @@ func doReplay(args []string) {
 					continue
 				}
 				wa.pushCtx(s)
+				if cf != nil {
+					// the line being replayed, at a fixed place: one positioned write, no truncation (length first)
+					binary.LittleEndian.PutUint64(hdr[:], uint64(len(s)))
+					cf.WriteAt(append(hdr[:], s...), 0)
+				}
 				if p := guard(func() { f.replay([]byte(s), wa) }); p != "" {
 					wa.mu.Lock()
 					wa.Fatal = "harness panic: " + p
@@ -354,7 +373,7 @@ func doReplay(args []string) {
 
 // replayMultiProc spreads the data lines over child processes (each with its own copy of the
 // package-level option registers) and merges their summaries.
-func replayMultiProc(name string, procs int, out string, logw io.Writer) {
+func replayMultiProc(name string, procs int, out, cur string, logw io.Writer) {
 	type kid struct {
 		cmd  *exec.Cmd
 		in   io.WriteCloser
@@ -368,7 +387,11 @@ func replayMultiProc(name string, procs int, out string, logw io.Writer) {
 			os.Exit(2)
 		}
 		tf.Close()
-		c := exec.Command(os.Args[0], "replay", name, "-child", "-out", tf.Name())
+		cargs := []string{"replay", name, "-child", "-out", tf.Name()}
+		if cur != "" {
+			cargs = append(cargs, "-cur", fmt.Sprintf("%s.c%d", cur, i))
+		}
+		c := exec.Command(os.Args[0], cargs...)
 		c.Stderr = os.Stderr
 		in, err := c.StdinPipe()
 		if err != nil {
